@@ -4,10 +4,13 @@ from types import SimpleNamespace
 
 from ufo import build, err_kind, rat
 import lib_C14 as L
+import lib_C14run as PR
 
 ID = "C14"
 THEOREM = ("Ufo2ft.C14.C14_report / C14_footprint / C14_holds / C14_exclusive / C14_stateless / C14_skipExport_empty / "
-           "C14_ifootprint / C14_ireport / C14_iholds / C14_istateless")
+           "C14_ifootprint / C14_ireport / C14_iholds / C14_istateless / C14_run_report / C14_run_refresh / "
+           "C14_run_footprint / C14_run_route / C14_run_holds")
+PROOF_FILES = ["C14", "C14Run"]
 N = {"quick": 700, "thorough": 14000}
 RULE = ("every shipped filter class: decomposeComponents, decomposeTransformedComponents, flattenComponents, propagateAnchors, "
         "transformations, reverseContourDirection, sortContours, skipExportGlyphs (modelled in full, glyph content compared "
@@ -22,7 +25,22 @@ RULE = ("every shipped filter class: decomposeComponents, decomposeTransformedCo
         "Observed: every glyph of the glyph set(s) before/after, the returned set, a snapshot of the whole source font (all "
         "layers, lib, features, kerning, groups) before/after. non-trivial = an invocation that changed a glyph while some "
         "glyph of the set was not changed, or a reused object's 2nd/3rd invocation that changed a glyph. Tags 'br:*' count "
-        "the branches of the modelled code reached.")
+        "the branches of the modelled code reached. "
+        "PRE-PROCESSOR LEVEL (op 'prun', n/4 further cases + harness/corpus/C14.jsonl, tags 'P:*'): "
+        "BaseInterpolatablePreProcessor(ufos, inplace, filters=[shared objects, ...], instantiator).process() on a "
+        "designspace of 1-4 masters (master 0 complete; later masters shifted copies, the LAST one sparse with p=0.6 - with an "
+        "instantiator it may lack the bases of its composites -, differing widths / anchors / structure) x 1-3 filter steps: "
+        "one object shared by all masters (a class without interpolatable variant: transformations / reverseContourDirection / "
+        "sortContours; a convertible class; a BaseIFilter object) or filters declared in the UFOs' libs (8 classes, holes = only "
+        "some UFOs declare it, differing options, differing include lists; include lists biased to glyphs absent from the last "
+        "master, identity transformation in the last UFO) x pre/post x with (65%) / without a real Instantiator x inplace or "
+        "copies x ufoLib2/defcon; 6%: anchors propagated through a mixed intermediate glyph as the first step. A pass-through "
+        "wrapper around pre._run records per step: the filters it was given, all glyph sets before/after, the reported set, "
+        "whether the instantiator was refreshed (a sentinel entry of instantiator.glyph_mutators is cleared by "
+        "replace_source_layers); after process(): a snapshot diff of every source font, and what every master's "
+        "InterpolatedLayer returns for every glyph name before and after a forced refresh. Every step is modelled from the "
+        "OBSERVED state before it. non-trivial = some step changed a glyph; 'P:last-master-unchanged' counts the steps where "
+        "the union over the masters matters (about 25% of the cases).")
 ASSUMED = [
     "glyph-set keys equal glyph names (what _GlyphSet.from_layer builds)",
     "booleanOperations/pathops union, cu2qu, fontTools BoundsPen and math.tan are external: parameters/inputs of the model",
@@ -30,10 +48,27 @@ ASSUMED = [
     "compared with tolerance 1e-6)",
     "the iteration order of the Python set of all glyph names in BaseIFilter.__call__ is an input of the model "
     "(the theorems hold for every order)",
-    "interpolatable variants are modelled and observed with instantiator=None",
+    "interpolatable variants are modelled with instantiator=None; a step of the pre-processor that runs ONE interpolatable "
+    "filter WITH an instantiator is not modelled: report / refresh / footprint / source / view are evaluated on its observation only",
+    "pre-processor level: every filter call of the model is made on a new object (C14_stateless / C14_istateless: the state of "
+    "a filter object never shows); equality of two filters' `options` is the equality of a canonical text built by the "
+    "harness from the constructor arguments with the class defaults filled in; the iteration order of the name set of "
+    "BaseIFilter.__call__ is an input (as above); which filter object belongs to which declaration is read from "
+    "pre.preFilters / pre.postFilters",
+    "the instantiator itself (fontMath / varLib interpolation) is external: 'view' compares two observations of it",
     "C14_source (the font is only read) holds of the model by construction (the model has no write access to the font); "
     "it is checked on the implementation by observation only",
 ]
+
+# entry for known_findings.json (that file is not edited by the builder of this check)
+PROPOSED_KNOWN_FINDING = {
+    "id": "C14-ipropagate-instantiator-source", "property": "C14", "kind": "known",
+    "shape": {"filter": "I:propagate+instantiator", "shape": "anchors-appended-to-source-font-glyph-before-first-refresh"},
+    "what": "PropagateAnchorsIFilter run by the interpolatable pre-processor with an instantiator and inplace=False resolves "
+            "component bases through the instantiator's InterpolatedLayers, which are the SOURCE fonts' layers until the first "
+            "refresh: anchors propagated to an intermediate base glyph that has contours of its own are appended to the source "
+            "font's glyph (the working copy of that glyph gets none); reporting, refresh and glyph-set footprint hold",
+}
 
 TRANSPARENT = {
     "decompose": "DecomposeComponentsFilter",
@@ -277,6 +312,12 @@ def gen(rng, n, mode):
             yield _gen_opaque(rng, mode, fname)
         else:
             yield _gen_declared(rng, mode, fname)
+    # pre-processor level (BaseInterpolatablePreProcessor.process / _run); drawn AFTER the streams above so that
+    # their cases do not depend on this one
+    import random
+    sub = random.Random(rng.getrandbits(64))
+    for _ in range(max(8, n // 4)):
+        yield PR.gen_case(sub, mode)
 
 
 # ------------------------------------------------------------------------------------------------ running
@@ -497,6 +538,57 @@ def _run_iseq(case):
              "obs": {"calls": calls, "fresh": fresh}, "tags": tags, "nontrivial": nontrivial}]
 
 
+def _run_prun(case):
+    steps_in, steps_obs, src, src_detail, view, forced, outside = PR.run_case(case, _timed)
+    nm = len(case["masters"])
+    tags = ["prun", f"P:masters:{nm}", "P:inst" if case["inst"] else "P:noinst",
+            "P:inplace" if case["inplace"] else "P:copy", case["ulib"], f"P:steps:{len(steps_obs)}"]
+    if len({tuple(g["name"] for g in fd["glyphs"]) for fd in case["masters"]}) > 1:
+        tags.append("P:sparse")
+    if outside:
+        tags.append("P:outside:" + outside)
+    nontrivial = False
+    for si, so in zip(steps_in, steps_obs):
+        fl = si["filters"]
+        present = [f for f in fl if f is not None]
+        tags.append("P:" + "+".join(sorted({f["impl"] for f in present})) if len({f["impl"] for f in present}) == 1 else "P:mixed-classes")
+        if any(f is None for f in fl):
+            tags.append("P:holes")
+        if any(f["isI"] for f in present):
+            tags.append("P:ifilter-object")
+        tags.append("P:err:" + str(so["err"]))
+        if so["err"] is not None:
+            continue
+        ch = []
+        for m, a in zip(si["masters"], so["after"]):
+            b, a = dict(m["gs"]), dict(a)
+            ch.append({k for k in set(a) | set(b) if a.get(k) != b.get(k)})
+        allch = set().union(*ch) if ch else set()
+        if allch:
+            tags.append("P:changed>0")
+            nontrivial = True
+            if nm > 1 and not ch[-1]:
+                tags.append("P:last-master-unchanged")         # the union over the masters matters
+            if nm > 1 and any(c != ch[0] for c in ch[1:]):
+                tags.append("P:masters-differ")
+        if set(so["modified"]) - allch:
+            tags.append("P:over-reported")
+        if so["refreshed"]:
+            tags.append("P:refreshed")
+    if view is not None:
+        tags.append("P:view")
+        if any(g["a"] and g["a"][0][0].startswith("!") for row in view for _, g in row):
+            tags.append("P:view-uninterpolatable")
+    if src:
+        tags.append("P:src-touched")
+    return [{"op": "prun",
+             "in": {"hasInst": bool(case["inst"]), "separate": not case["inplace"], "steps": steps_in, "impl": "prun",
+                    "exact": True},
+             "obs": {"steps": steps_obs, "src": src, "srcDetail": src_detail, "view": view, "forced": forced,
+                     "outside": outside},
+             "tags": list(dict.fromkeys(tags)), "nontrivial": nontrivial}]
+
+
 def _declared_names(case, fd, fin):
     """declared footprint of the two filters that have no glyph-level model"""
     if case["filter"] == "dottedCircle":
@@ -531,6 +623,8 @@ def run(case):
                  "tags": ["init", "init:" + case["filter"], "init-err:" + str(obs["err"])]}]
     if case["kind"] == "iseq":
         return _run_iseq(case)
+    if case["kind"] == "prun":
+        return _run_prun(case)
     cls, args, kwargs = _ctor(case)
 
     def make():
@@ -597,6 +691,8 @@ def agree(req, rep):
     if req["op"] == "init":
         return m == {k: v for k, v in o.items()}
     impl = req["in"]["impl"]
+    if req["op"] == "prun":
+        return _agree_prun(req, m, o)
     if req["op"] == "iseq":
         if len(m["calls"]) != len(o["calls"]):
             return False
@@ -639,11 +735,45 @@ def agree(req, rep):
     return True
 
 
+def _agree_prun(req, m, o):
+    if o["outside"] is not None or len(m["steps"]) != len(o["steps"]):
+        return False
+    for si, ms, os_ in zip(req["in"]["steps"], m["steps"], o["steps"]):
+        if ms is None:
+            continue              # an interpolatable filter WITH an instantiator: not modelled (predicates only)
+        if os_["err"] in RESOURCE_ERRS:
+            continue
+        if ms["err"] != os_["err"]:
+            return False
+        if ms["err"] is not None:
+            continue
+        if ms["modified"] != os_["modified"]:
+            return False
+        if os_["refreshed"] is not None and ms["refreshed"] != os_["refreshed"]:
+            return False
+        if len(ms["after"]) != len(os_["after"]):
+            return False
+        fl = si["filters"]
+        if len(fl) != len(ms["after"]):
+            fl = fl[:1] * len(ms["after"])
+        for f, ma, oa in zip(fl, ms["after"], os_["after"]):
+            if [k for k, _ in ma] != [k for k, _ in oa]:
+                return False
+            for (k, mg), (_, og) in zip(ma, oa):
+                if f is not None and f["impl"] in OPAQUE and k in os_["modified"]:
+                    mg = dict(mg, c=None); og = dict(og, c=None)      # the outline operation is external
+                if mg != og:
+                    return False
+    return True
+
+
 def classify_failure(res):
     """shapes of the genuine deviations of the unchanged ufo2ft from C14 (see the report)"""
     r = res["req"]
     if r["op"] == "iseq":
         return _classify_iseq(r)
+    if r["op"] == "prun":
+        return _classify_prun(r, res.get("info"))
     if r["op"] != "seq":
         return None
     impl = r["in"]["impl"]
@@ -679,6 +809,50 @@ def classify_failure(res):
                 ok = False
         return {"filter": "dottedCircle", "shape": "source-lib-categories-or-features-written"} if ok else None
     return None
+
+
+def _classify_prun(r, info):
+    """The one genuine deviation of the unchanged ufo2ft seen at the pre-processor level (see the report):
+    PropagateAnchorsIFilter resolves component bases through the instantiator's InterpolatedLayers; with inplace=False
+    and before the first refresh these are still the SOURCE fonts' layers, so the anchors propagated to an intermediate
+    base that has contours of its own (a truthy glyph object) are appended to the source font's glyph.
+    Exactly that: only the source predicate fails, only anchors of default-layer source glyphs were written, the
+    glyphs are mixed (contours + components) in their master, and an anchor-propagation step run as one interpolatable
+    filter with an instantiator took place before any refresh."""
+    if not info or not r["in"]["hasInst"] or not r["in"]["separate"]:
+        return None
+    if info["source"] is not False or info["view"] is not True:
+        return None
+    if any(h is not None and not (h["report"] and h["refresh"] and h["footprint"]) for h in info["steps"]):
+        return None
+    obs = r["obs"]
+    if obs["outside"] is not None or not obs["srcDetail"]:
+        return None
+    # the first step that refreshed ends the window in which the instantiator still reads the source fonts
+    window = []
+    for si, so in zip(r["in"]["steps"], obs["steps"]):
+        window.append((si, so))
+        if so["err"] is not None or so.get("refreshed"):
+            break
+    # (the step may have been aborted by an exception of a later glyph: what it wrote before stays written)
+    prop = [(si, so) for si, so in window if so["err"] not in RESOURCE_ERRS and all(
+        f is not None and f["cls"] == "propagate" for f in si["filters"]) and
+        len({(f["optsKey"], f["pre"]) for f in si["filters"]}) == 1]
+    if not prop:
+        return None
+    for mi, name, fields in obs["srcDetail"]:
+        if fields != ["a"]:
+            return None
+        ok = False
+        for si, so in prop:
+            g = dict(si["masters"][mi]["gs"]).get(name)
+            # (in a sparse master the referencing composite may itself be an interpolated instance)
+            referenced = any(b == name for m in si["masters"] for _, h in m["gs"] for b, _ in h["k"])
+            if g is not None and g["c"] and g["k"] and referenced and (so["err"] is not None or name in so["modified"]):
+                ok = True
+        if not ok:
+            return None
+    return {"filter": "I:propagate+instantiator", "shape": "anchors-appended-to-source-font-glyph-before-first-refresh"}
 
 
 def _incl_snapshot(inc, name, g):
@@ -732,7 +906,32 @@ def _classify_iseq(r):
     return {"filter": "I:flatten", "shape": "last-master-flag-overwrites-earlier-masters"} if seen else None
 
 
+def _shrink_prun(case):
+    masters, shared, lib = case["masters"], case["shared"], case["lib"]
+    for i in range(len(shared)):
+        c = dict(case); c["shared"] = shared[:i] + shared[i + 1:]; yield c
+    for mi, specs in enumerate(lib):
+        for i in range(len(specs)):
+            c = dict(case); c["lib"] = lib[:mi] + [specs[:i] + specs[i + 1:]] + lib[mi + 1:]; yield c
+    if len(masters) > 1:
+        for mi in range(1, len(masters)):
+            c = dict(case); c["masters"] = masters[:mi] + masters[mi + 1:]; c["lib"] = lib[:mi] + lib[mi + 1:]; yield c
+    if case["inst"]:
+        c = dict(case); c["inst"] = False; yield c
+    allused = {b for fd in masters for g in fd["glyphs"] for b, _ in g["components"]}
+    for nm in list(dict.fromkeys(g["name"] for fd in masters for g in fd["glyphs"])):
+        if nm in allused:
+            continue
+        ms2 = [dict(fd, glyphs=[g for g in fd["glyphs"] if g["name"] != nm]) for fd in masters]
+        if any(not fd["glyphs"] for fd in ms2):
+            continue
+        c = dict(case); c["masters"] = ms2; yield c
+
+
 def shrink(case):
+    if case["kind"] == "prun":
+        yield from _shrink_prun(case)
+        return
     if case["kind"] == "iseq":
         calls = case["calls"]
         if len(calls) > 1:
@@ -783,7 +982,19 @@ LEVEL_TEXT = ("Proved for all inputs (Lean, no bound on glyph count / nesting / 
               "irrelevant to both; include+exclude => ValueError, list => membership, exclude => complement, callable => "
               "itself (C14_exclusive); a reused filter object returns what a new one returns (C14_stateless, C14_istateless; "
               "SkipExportGlyphsFilter([]) never reaches set_context and raises AttributeError on every call, "
-              "C14_skipExport_empty). The model is tied to the code by differential runs comparing the full glyph content.")
+              "C14_skipExport_empty). The model is tied to the code by differential runs comparing the full glyph content. "
+              "Pre-processor level (model of BaseInterpolatablePreProcessor._run incl. _try_as_interpolatable_filter, "
+              "Props/C14Run.lean, 34 theorems, all inputs): whichever way a step runs its filters - one interpolatable filter for "
+              "all masters or one filter per master, with missing filters - every glyph that differs in ANY master afterwards is "
+              "in the set the step reports (C14_run_report: the union over the masters), the instantiator is refreshed whenever "
+              "some glyph of some master changed and exactly when the reported set is non-empty (C14_run_refresh, "
+              "C14_run_refresh_only), a master without a filter is unchanged and each master changes only within its own "
+              "filter's footprint, or within the union of the includes when the filters are merged (C14_run_footprint, "
+              "C14_run_holds); the merge happens exactly when all masters have the first filter's class / options / pre and the "
+              "class has an interpolatable variant (C14_run_route); a missing filter in the FIRST master then makes the merged "
+              "include dereference None (C14_run_noneFirst: AttributeError unless there is no glyph at all); "
+              "perMasterLast_underreports: with 'the last filter's set' instead of the union a concrete step with a sparse last "
+              "master reports nothing and never refreshes.")
 LEVEL_NOTE = ("Trusted: Lean kernel + propext/Classical.choice/Quot.sound; correspondence of the hand-written model with "
               "filters/*.py, util.py and the fontTools pens is differential (bounded by the generators). removeOverlaps / "
               "cubicToQuadratic are modelled with the outline operation as a parameter; dottedCircle and "
@@ -792,4 +1003,14 @@ LEVEL_NOTE = ("Trusted: Lean kernel + propext/Classical.choice/Quot.sound; corre
               "deviations of the code are classified as known findings (dottedCircle and explodeColorLayerGlyphs write the "
               "source font / under-report added glyphs). FlattenComponentsIFilter reporting only the last master's flag was "
               "found by this check and repaired in /repo (90a86ee); its shape is still named by classify_failure and would "
-              "now be a VIOLATION; the old rule survives only as the Lean theorem iflatten_lastflag_underreports.")
+              "now be a VIOLATION; the old rule survives only as the Lean theorem iflatten_lastflag_underreports. "
+              "Pre-processor level: the per-step wrapper and the refresh sentinel are observation hooks on a private method / a "
+              "public dataclass field (pass-through, they change nothing); steps running an interpolatable filter with an "
+              "instantiator and the 'view' comparison (what a later filter reads through the instantiator == the same after a "
+              "forced refresh) are PREDICATE-ONLY streams: `holds` is evaluated by the Lean driver on observed data, nothing is "
+              "compared with a model there (agree = True). Third deviation of the code (found by this stream, named by "
+              "classify_failure with the shape 'anchors-appended-to-source-font-glyph-before-first-refresh', see "
+              "PROPOSED_KNOWN_FINDING; a VIOLATION until it is listed in known_findings.json): PropagateAnchorsIFilter with an instantiator and "
+              "inplace=False appends anchors to mixed intermediate glyphs of the SOURCE fonts before the first refresh. Also "
+              "modelled as it is (not a C14 violation, reported): with no filter in the first UFO and the same convertible "
+              "filter in all others the step raises AttributeError.")
